@@ -109,6 +109,9 @@ let parse_packet = function
 
 type st = Dead | V4 of state
 
+(* argument "unfixed": run the model of the code before the fix: commits (State4Orig.v) *)
+let unfixed = Array.length Sys.argv > 1 && Sys.argv.(1) = "unfixed"
+
 let tail_s s =
   let evs, s' = v4_drain s in
   let t =
@@ -120,7 +123,7 @@ let tail_s s =
   (t, s')
 
 let run4 s o =
-  match v4_step s o with
+  match (if unfixed then v4_step_orig else v4_step) s o with
   | Ok (s', Wrote p) ->
       let t, s'' = tail_s s' in
       print_endline ("OK " ^ (match p with Some p -> packet_s p | None -> "-") ^ " " ^ t);
